@@ -43,6 +43,11 @@ NAMES = [
     "yaml.constructor.UnsafeConstructor", "datetime.datetime", "datetime", "re.compile", "collections.OrderedDict",
     "", ".", "a b", "nonexistent_module_xyz.attr", "os.nonexistent", "os..system", "1abc", "antigravity.fly", "this.s",
     "ctypes.CDLL", "pickle.loads", "importlib.import_module", "types.FunctionType",
+    # dotted paths that run through a class (attributes of classes are not attributes of modules; looking them up may run code)
+    "canary_imported.Settings.instance", "canary_imported.Settings.current", "canary_imported.Settings.Nested", "canary_imported.Settings.Nested.VALUE",
+    "collections.OrderedDict.fromkeys", "datetime.datetime.now", "os.path.join.__call__",
+    # names that mean something to a formatting operator
+    "%s", "a%sb.c%d", "%(x)s.%(y)s", "canary_imported.%s", "os.%n", "100%",
 ]
 
 # the subset of NAMES whose *call* the monitor reports (the others are used legitimately by the library or the harness)
@@ -55,7 +60,8 @@ WATCH = {n for n in NAMES if n.startswith("canary_imported.")} | {
 HOT_NAMES = ["canary_unimported.func", "canary_unimported.VALUE", "canary_unimported", "canary_pkg.sub.attr", "canary_pkg.sub.func",
              "canary_pkg.sub", "canary_pkg", "canary_imported.func", "canary_imported.Obj", "canary_imported.Plain",
              "canary_imported.ListSub", "os.system", "antigravity.fly", "this.s", "canary_imported.GENLIKE", "canary_imported.ITERLIKE",
-             "canary_imported.CALLABLE"]
+             "canary_imported.CALLABLE", "canary_imported.Settings.instance", "canary_imported.Settings.current", "canary_imported.Obj.method",
+             "collections.OrderedDict.fromkeys", "%(x)s.%(y)s", "canary_imported.%s"]
 
 TAG_CH = set("ABCDEFGHIJKLMNOPQRSTUVWXYZabcdefghijklmnopqrstuvwxyz0123456789-;/?:@&=+$_.~*'()")
 SCALAR_TEXTS = ["", "a", "1", "2.5", "true", "~", "2001-01-01", "x y", "k", "v", "0x1F", "[1]", "os.system", "1+2j", "abc", "app", "app3", "app-key", "appd",
